@@ -182,7 +182,7 @@ func c01VecStr(v c01Vec, dims []int) string {
 
 var (
 	c01ReqPool = [c01MaxDims][]int64{
-		{0, 1, 500, 999, 1000, 1001, 2000, 4000, 10000, 15000, 30000, 100000},
+		{0, 1, 300, 500, 999, 1000, 1001, 1800, 2000, 4000, 10000, 15000, 30000, 100000},
 		{0, 1, 1 << 10, 1 << 20, 1<<30 + 1, 3 << 30, 1 << 40},
 		{0, 1, 2, 5, 8},
 		{0, 1, 2, 4, 8},
@@ -197,7 +197,8 @@ var (
 		{1<<50 - 1, 1 << 40},
 	}
 	c01MaxPool = [c01MaxDims][]int64{
-		{0, 1000, 2000, 5000, 10000, 20000, 50000, 1000000, c01Huge},
+		// whole cores and fractional (milli) values: a request may exceed a max by less than one whole unit
+		{0, 1, 500, 999, 1001, 1500, 2500, 1000, 2000, 5000, 10000, 10500, 20000, 50000, 1000000, c01Huge},
 		{0, 1 << 20, 1 << 30, 4 << 30, 1 << 41, c01Huge},
 		{0, 1, 4, 16, c01Huge},
 		{0, 1, 8, c01Huge},
@@ -1097,6 +1098,9 @@ func (e *c01Env) check(ctx *c01Ctx) {
 		}
 		if m.limited(agg, n) {
 			c.Count("expected_request_above_max", 1)
+			if g := m.groups[n]; g != nil && len(m.dims) > 0 && m.dims[0] == 0 && a.req[0] > g.max[0] && (a.req[0]+999)/1000 == (g.max[0]+999)/1000 {
+				c.Count("expected_cpu_request_above_max_by_less_than_one_core", 1)
+			}
 		}
 		for _, f := range c01Fields {
 			if isRoot && !f.root {
